@@ -105,8 +105,10 @@ def run_case(case):
                 "splice_wrong", start=s, end=e, desc=desc, new=case.get("new_str", case.get("new_desc", case.get("same_text"))),
                 got=show(gc) if err is None else exc_str(err), expected=show(exp),
             )
-        elif len(got) != len(exp):
-            res.viol("splice_len_wrong", start=s, end=e, desc=desc, got=len(got), expected=len(exp))
+        else:
+            ln, err = call(len, got)
+            if err is not None or ln != len(exp):
+                res.viol("splice_len_wrong", start=s, end=e, desc=desc, got=ln if err is None else exc_str(err), expected=len(exp))
     evals += 1
     got, err = call(lambda: f.append(new) if len(newc) % 2 else f.append(string=new))
     if err is not None:
@@ -123,12 +125,12 @@ SUB = st.sampled_from([0, 0, 0, 0, 0, 1, 2, 3])
 
 
 def strategy():
-    d = gen.desc_sized(alphabet="abcde 31m[", max_runs=5, max_len=3, big_runs=24, big_len=60)
+    d = gen.desc_sized(alphabet="abcde 31m[\u0301\uff25", max_runs=5, max_len=3, big_runs=24, big_len=60)
     same = st.fixed_dictionaries({"desc": d, "same_text": st.tuples(st.integers(0, 12), st.integers(1, 4),
                                   st.one_of(st.none(), st.tuples(gen.atts(), gen.atts()).map(list))).map(list), "build": gen.BUILDS, "obs": gen.OBS, "sub": SUB})
     return st.one_of(
         same,
-        st.fixed_dictionaries({"desc": d, "new_str": st.one_of(gen.text("XY", 0, 2), gen.plain_str(3)), "build": gen.BUILDS, "obs": gen.OBS, "sub": SUB}),
+        st.fixed_dictionaries({"desc": d, "new_str": st.one_of(gen.text("XY\u0301\uff25", 0, 2), gen.plain_str(3)), "build": gen.BUILDS, "obs": gen.OBS, "sub": SUB}),
         st.fixed_dictionaries({"desc": d, "new_desc": gen.desc_sized(alphabet="XY", max_runs=3, max_len=2, big_runs=12, big_len=40),
                                "build": gen.BUILDS, "obs": gen.OBS, "new_build": gen.BUILDS, "new_obs": gen.OBS, "sub": SUB}),
     )
